@@ -81,6 +81,15 @@ func init() {
 			fr.x.unwind = fr.x.concreteInt(a[0])
 			return nil
 		},
+		"verifOnUnwind": func(fr *frame, a []Value) Value {
+			fr.x.onUnwind = fr.x.concreteInt(a[0])
+			return nil
+		},
+		"verifWedgeAtUnwind": func(fr *frame, a []Value) Value {
+			fr.x.onUnwind = 2
+			fr.x.wedgeMsg = fr.x.tagOf(a[0])
+			return nil
+		},
 		"verifPreempt": func(fr *frame, a []Value) Value {
 			fr.x.preempt = fr.x.concreteInt(a[0])
 			return nil
@@ -98,6 +107,7 @@ func init() {
 			if fr.x.lastAfterFunc == nil {
 				return fr.x.tc.Const(64, ^uint64(0))
 			}
+			_ = a
 			return fr.x.lastAfterFunc
 		},
 		"verifSymbolic": func(fr *frame, a []Value) Value {
